@@ -46,6 +46,7 @@ class Spec:
         self.cross = cross              # oracle across the cases of one (grammar, input)
         self.emit_bias = emit_bias
         self.all_kinds = False
+        self.extra_cases = None         # callable(rng, tier) -> [(grammar, input)] appended to the random stream
 
     @staticmethod
     def inp_for_kind(ik, inp):
@@ -61,11 +62,17 @@ class Spec:
         G.emit_bias = self.emit_bias
         cid = start_id
         group = 0
-        for gi in range(n):
-            g = self.gen_hook(G, rng) if self.gen_hook else G.g(rng.randint(*self.depth))
+        extra = self.extra_cases(rng, tier) if self.extra_cases else []
+        for gi in range(n + len(extra)):
+            if gi < n:
+                g = self.gen_hook(G, rng) if self.gen_hook else G.g(rng.randint(*self.depth))
+                inps = inputs_for(rng, g, self.alpha, extra_alpha=[EURO] if (rng.random() < 0.2 and not self.all_kinds) else [])
+            else:
+                g, one = extra[gi - n]
+                inps = [one]
             eks = list(self.ekinds) if (len(self.ekinds) == 1 or rng.random() < 0.35) else [self.ekinds[0]]
             iks = list(self.ikinds) if (self.all_kinds or rng.random() < 0.5) else [self.ikinds[0]]
-            for inp in inputs_for(rng, g, self.alpha, extra_alpha=[EURO] if rng.random() < 0.2 else []):
+            for inp in inps:
                 group += 1
                 for ik in iks:
                     for ek in eks:
@@ -113,6 +120,43 @@ def nt_backtrack(g, inp):
 C01_CTORS = CORE
 C02_CTORS = ["Any", "Just", "OneOf", "NoneOf", "Then", "Or", "Map", "Filter", "OrNot", "To"] + ITER * 3 + ["MapWith", "ToSlice", "WithCtx", "IgnoreWithCtx", "JustCfg"]
 
+PLAIN_KINDS = ("str", "slice", "array", "stream", "bstream", "mapspan", "withctx", "bytes", "io")
+ALL_KINDS = PLAIN_KINDS + ("mapped", "mappedstream", "iter")
+
+def c10_cross(groups):
+    """C10: the same grammar and token sequence through every input kind. Kinds with index/offset spans must agree
+    completely (the harness prints all spans as token indices); kinds whose tokens carry their own spans must agree on the
+    verdict. A Stream must not pull more items than exist."""
+    bad = []
+    for key, rs in groups.items():
+        plain = {(m["ikind"]): r for (cid, m, r) in rs if m["ikind"] in PLAIN_KINDS and r.kind in ("OK", "FAIL")}
+        ref = plain.get("slice") or (next(iter(plain.values())) if plain else None)
+        for cid, m, r in rs:
+            if r.kind not in ("OK", "FAIL"): continue
+            if ref is None: continue
+            if m["ikind"] in PLAIN_KINDS:
+                if (r.kind, r.val, tuple(r.errs)) != (ref.kind, ref.val, tuple(ref.errs)):
+                    bad.append((cid, f"{m['ikind']} differs from the reference kind: {r.raw} vs {ref.raw}"))
+            elif r.kind != ref.kind:
+                bad.append((cid, f"{m['ikind']} verdict {r.kind} differs from the reference kind ({ref.kind})"))
+            if r.pulled is not None and (r.pulled == "!" or int(r.pulled) > len(m["inp"])):
+                bad.append((cid, f"stream pulled {r.pulled} items from an iterator of {len(m['inp'])}"))
+    return bad
+
+def c10_long(rng, tier):
+    """inputs longer than Stream's 512-token batch, with backtracking across the boundary"""
+    out = []
+    g1 = ["Then", ["Collect", "CCount", ["IRep", ["Or", ["Then", ["Just", [A]], ["Just", [B]]], ["Just", [A]]], 0, "inf"]], ["OrNot", ["Just", [C]]]]
+    g2 = ["Or", ["Then", ["RepUnit", ["IRep", ["Just", [A]], 0, "inf"]], ["Just", [B]]], ["Collect", "CCount", ["IRep", "Any", 0, "inf"]]]
+    g3 = ["Collect", "CCount", ["ISep", ["Just", [A]], ["Just", [B]], 0, "inf", 0, 1]]
+    for n in ([510, 511, 512, 513, 1025] if tier == "quick" else [500, 510, 511, 512, 513, 514, 1023, 1024, 1025, 1300]):
+        out.append((g1, [A] * n + [A, B] * 3 + [C]))
+        out.append((g1, ([A, B] * (n // 2)) + [A]))
+        out.append((g2, [A] * n + [C]))
+        out.append((g2, [A] * n + [B]))
+        out.append((g3, ([A, B] * (n // 2)) + [A]))
+    return out
+
 SPECS = {
     "C01": Spec("C01", C01_CTORS + ["ToSpan", "MapWith"], obs_vv, ekinds=("rich", "empty", "simple"), ikinds=("str", "slice"),
                 nontrivial=nt_backtrack,
@@ -143,7 +187,7 @@ SPECS = {
     "C06": Spec("C06", CORE + ITER, obs_last, ekinds=("rich", "simple", "cheap", "empty"), no_not=True, extra=span_wf_oracle,
                 nontrivial=lambda g, inp: has_head(g, BACKTRACK),
                 rule="C01/C02 grammars without `not`, all four error types on every case; non-trivial = a backtracking site present"),
-    "C07": Spec("C07", CORE + SPANS * 4 + ITER, obs_vv, ekinds=("rich",), ikinds=("str", "slice"),
+    "C07": Spec("C07", CORE + SPANS * 4 + ITER, obs_vv, ekinds=("rich",), ikinds=("str", "slice", "mapped", "mappedstream", "iter"),
                 nontrivial=lambda g, inp: len(inp) > 0 and has_head(g, {"MapWith", "ToSpan", "ToSlice", "TryMapWith", "FoldlWith", "FoldrWith", "IMapWith"}),
                 rule="C01/C02 grammars with span / slice captures; multi-byte characters in the alphabet; "
                      "non-trivial = a capture node present and non-empty input"),
@@ -157,6 +201,14 @@ SPECS = {
                 rule="operator tables of 1..6 operators over 6 symbols and 4 binding powers (same symbol may be prefix, postfix and infix), tuple and Vec "
                      "tables, optionally followed by a trailing token; inputs sampled as operand (op operand)* with prefix/postfix, mutated/truncated/extended; "
                      "observable: the fully structured tree with the span given to every fold; non-trivial = input of >= 3 tokens"),
+    "C10": Spec("C10", [c for c in CORE + ITER + RECOVER if c not in ("ToSlice",)], obs_full, sem_obs=obs_vv_emis_last, ekinds=("rich",),
+                ikinds=ALL_KINDS, modes=("parse",), slices=False, n_quick=350, n_thorough=4000, cross=c10_cross,
+                nontrivial=lambda g, inp: len(inp) > 0 and has_head(g, BACKTRACK),
+                rule="C01/C02/C08 grammars (without slice captures), every (grammar, input) through all 12 input kinds side by side: &str, &[T], &[T;N], "
+                     "Stream, boxed Stream, map_span, with_context, &[u8], IoInput, and Input::map over a slice / over a Stream / IterInput with gapped token "
+                     "spans; plus inputs of 510..1300 tokens with backtracking across Stream's 512-token batch boundary; tie per kind against the machine with "
+                     "that kind's span function; cross-kind oracle: index-span kinds agree completely, own-span kinds agree on the verdict, streams never "
+                     "pull more items than exist; non-trivial = non-empty input with a backtracking site"),
     "C11": Spec("C11", CORE + ITER + ["Validate"], obs_full, sem_obs=obs_vv_emis_last, ekinds=("rich", "simple"), n_quick=700,
                 gen_hook=lambda G, rng: (G.leftrec() if rng.random() < 0.12 else G.memoize(G.rec(3) if rng.random() < 0.2 else G.g(rng.randint(2, 4)), 0.35)),
                 nontrivial=lambda g, inp: len(inp) > 0 and has_head(g, {"Memo"}),
@@ -185,3 +237,6 @@ SPECS = {
                 rule="grammars over every modelled constructor (repetition items and skip parsers syntactically consuming), "
                      "all error types; observable = the verdict class (OK / FAIL / PANIC / TIMEOUT)"),
 }
+
+SPECS["C10"].all_kinds = True
+SPECS["C10"].extra_cases = c10_long
